@@ -11,12 +11,15 @@ pub mod c08;
 pub mod c09;
 pub mod c10;
 pub mod c11;
+pub mod c12;
 pub mod c13;
 pub mod c14;
 pub mod c15;
 pub mod c16;
+pub mod c17;
 pub mod c18;
 pub mod c19;
+pub mod c20;
 
 pub fn property(id: &str) -> Option<PropertyDef> {
     match id {
@@ -31,12 +34,15 @@ pub fn property(id: &str) -> Option<PropertyDef> {
         "C09" => Some(c09::def()),
         "C10" => Some(c10::def()),
         "C11" => Some(c11::def()),
+        "C12" => Some(c12::def()),
         "C13" => Some(c13::def()),
         "C14" => Some(c14::def()),
         "C15" => Some(c15::def()),
         "C16" => Some(c16::def()),
+        "C17" => Some(c17::def()),
         "C18" => Some(c18::def()),
         "C19" => Some(c19::def()),
+        "C20" => Some(c20::def()),
         _ => None,
     }
 }
